@@ -303,6 +303,9 @@ static void sparse_cells(uint64_t rows, uint64_t cols) {
 }
 
 /* small, fully allocated matrices: write sequences with cross-cell probes */
+static gbuf g_last;
+static size_t g_last_total;
+static int g_received;
 static void small_matrix(uint64_t rows, uint64_t cols, int kind, int w) {
     varintWidth wr = 0, wc = 0;
     if (rows) {
@@ -314,12 +317,32 @@ static void small_matrix(uint64_t rows, uint64_t cols, int kind, int w) {
     uint64_t cells = nrows * cols;
     size_t body = kind == 0 ? (size_t)((cells + 7) / 8) : (size_t)(cells * (unsigned)w);
     size_t total = (size_t)hdrlen + body;
-    gbuf g = gb_alloc(total); /* the matrix ends at a guard page */
+    /* the matrix ends at a guard page.  g_received: this matrix arrives as an
+     * image copied over the storage of the previous one (same address, same
+     * size, another shape): its header is not written by the library here */
+    gbuf g;
+    int received = g_received && g_last.map && g_last_total == total;
+    if (received) {
+        g = g_last;
+    } else {
+        if (g_last.map) {
+            gb_free(&g_last);
+        }
+        g = gb_alloc(total);
+    }
+    g_last.map = NULL;
     for (size_t i = 0; i < total; i++) {
         g.p[i] = (uint8_t)rng_u64();
     }
     mat = g.p;
-    varintDimensionPair dim = varintDimensionPairEncode(mat, rows, cols);
+    varintDimensionPair dim;
+    if (received) {
+        uint8_t image[32];
+        dim = varintDimensionPairEncode(image, rows, cols);
+        memcpy(mat, image, (size_t)hdrlen);
+    } else {
+        dim = varintDimensionPairEncode(mat, rows, cols);
+    }
     uint8_t *snap = malloc(total);
     nwins = 1;
     wins[0].off = 0;
@@ -384,7 +407,8 @@ static void small_matrix(uint64_t rows, uint64_t cols, int kind, int w) {
         }
     }
     free(snap);
-    gb_free(&g);
+    g_last = g; /* kept mapped: the next matrix may be copied over it */
+    g_last_total = total;
 }
 
 int main(int argc, char **argv) {
@@ -434,6 +458,27 @@ int main(int argc, char **argv) {
                     small_matrix(small[m][0], small[m][1], kind,
                                  kind == 1 ? w : kind == 2 ? 4 : kind == 3 ? 8 : kind == 4 ? 2 : 1);
                 }
+            }
+        }
+    }
+    /* pairs of shapes with the same number of cells and the same header
+     * widths: the second arrives as an image copied over the first */
+    static const uint64_t reshaped[][2][2] = {{{3, 4}, {4, 3}}, {{2, 6}, {6, 2}}, {{4, 3}, {2, 6}}, {{1, 12}, {12, 1}},
+                                              {{5, 7}, {7, 5}}, {{3, 4}, {1, 12}}, {{16, 17}, {17, 16}}};
+    for (size_t m = 0; m < sizeof(reshaped) / sizeof(reshaped[0]); m++) {
+        for (int kind = 0; kind < 5; kind++) {
+            for (int w = 1; w <= (kind == 1 ? 8 : 1); w += 3) {
+                k++;
+                if (k % nshards != shard) {
+                    continue;
+                }
+                int ww = kind == 1 ? w : kind == 2 ? 4 : kind == 3 ? 8 : kind == 4 ? 2 : 1;
+                rng_seed(env_seed() * 977 + k);
+                g_received = 0;
+                small_matrix(reshaped[m][0][0], reshaped[m][0][1], kind, ww);
+                g_received = 1;
+                small_matrix(reshaped[m][1][0], reshaped[m][1][1], kind, ww);
+                g_received = 0;
             }
         }
     }
